@@ -102,6 +102,8 @@ T("C11", "twin-unquote-guard-continue", F, PAIR_LOOP, PAIR_GUARD)
 T("C11", "twin-unquote-merged-and", F, SINGLE, SINGLE_AND)
 T("C11", "twin-unquote-ifexp", F, SINGLE, SINGLE_IFEXP)
 T("C11", "twin-unquote-len-minus-one", F, "                                value.append(str(x)[1:-1])\n", "                                value.append(str(x)[1 : len(str(x)) - 1])\n")
+# lemma L1 (s[1:len(s)-1] == s[1:-1]) needs the `len` of the sliced string itself
+M("C11", "unquote-len-of-other-string", F, "                                value.append(str(x)[1:-1])\n", "                                value.append(str(x)[1 : len(path) - 1])\n", "C11.R1")
 M("C11", "unquote-pair-dropped", F, "                                value.append(str(x)[1:-1])\n", "                                value.append(str(x))\n", "C11.R1")
 M("C11", "unquote-comprehension-strip", F, PAIR_LOOP, PAIR_COMP.replace("str(x)[1:-1]", "str(x).strip('\"')"), "C11.R1")
 M("C11", "unquote-single-strip-merged", F, SINGLE, SINGLE_AND.replace("str(value)[1:-1]", "str(value).strip('\"')"), "C11.R1")
